@@ -1,6 +1,7 @@
 package props
 
 import (
+	"fmt"
 	"math/rand"
 
 	"olsim/core"
@@ -93,5 +94,27 @@ func AbsentHook(prob float64) func(e *core.Engine, rng *rand.Rand, st *core.Step
 				st.Absent = append(st.Absent, v.Address.String())
 			}
 		}
+	}
+}
+
+// RestartAndJoinBetween revives crashed replicas and, rarely, adds a late joiner that syncs from genesis.
+func RestartAndJoinBetween(restartProb, joinProb float64, maxReplicas int, numValidators int) func(e *core.Engine, rng *rand.Rand, blockNo int) []*core.Step {
+	rb := RestartBetween(restartProb)
+	return func(e *core.Engine, rng *rand.Rand, blockNo int) []*core.Step {
+		out := rb(e, rng, blockNo)
+		if blockNo > 2 && len(e.C.Replicas) < maxReplicas && rng.Float64() < joinProb {
+			rc := &core.ReplicaConf{WitnessInitEarly: rng.Intn(2) == 0, Quiet: rng.Intn(2) == 0}
+			switch rng.Intn(3) {
+			case 0:
+				rc.Identity = fmt.Sprintf("v%d", rng.Intn(numValidators))
+			case 1:
+				rc.Identity = fmt.Sprintf("c%d", rng.Intn(4))
+			default:
+				rc.Identity = fmt.Sprintf("x%d", 20+len(e.C.Replicas))
+			}
+			rc.Recent, rc.Every, rc.Cycles = drawRotation(rng)
+			out = append(out, &core.Step{Kind: "join", Join: rc})
+		}
+		return out
 	}
 }
